@@ -157,6 +157,22 @@ theorem fails_iff (c : Config) (o : Tr → Except Err α) (e : Err) :
           e = (lastErr o none pre).getD e') := by
   rw [fallback_refines_chain]; exact chain_error_iff o _ (permitted_ne_nil c) e
 
+/-- the property's sentence, as a corollary: the query's network step fails only if a permitted
+protocol gave a definitive (non-retryable) refusal or every permitted protocol failed. -/
+theorem fails_only_if (c : Config) (o : Tr → Except Err α) (e : Err)
+    (h : (queryWithFallback c o).2 = .error e) :
+    (∃ t ∈ permitted c, ∃ e', o t = .error e' ∧ shouldRetry e' = false) ∨
+    (∀ t ∈ permitted c, ∃ e', o t = .error e') := by
+  rcases (fails_iff c o e).1 h with ⟨pre, t, post, hp, _, _, he, hr⟩ | ⟨pre, t, e', hp, hpre, he, _⟩
+  · exact Or.inl ⟨t, by rw [hp]; simp, e, he, hr⟩
+  · right
+    intro x hx
+    rw [hp] at hx
+    simp only [List.mem_append, List.mem_singleton] at hx
+    rcases hx with hx | rfl
+    · obtain ⟨e0, he0, _⟩ := hpre x hx; exact ⟨e0, he0⟩
+    · exact ⟨e', he⟩
+
 /-- the last permitted protocol is always Ribbit TCP (so in the second disjunct of `fails_iff`
 `t = tcp`), and the permitted list is a sub-list of [https, http, tcp] in that order. -/
 theorem permitted_shape (c : Config) :
